@@ -1186,7 +1186,11 @@ class BaseGateway:
             log(self._geterrortext(exc))
         log("finishing receiving thread")
         # wake up and terminate any execution waiting to receive
-        self._channelfactory._finished_receiving()
+        # (under the receive lock, like message handling: a concurrent
+        # setcallback() must not register its callback in between and
+        # miss the endmarker)
+        with self._receivelock:
+            self._channelfactory._finished_receiving()
         log("terminating execution")
         self._terminate_execution()
         log("closing read")
